@@ -123,6 +123,22 @@ func (w *world) audit(what string, probe bool) {
 	vf.Cover("c17.audit")
 }
 
+// a range scan that starts exactly at a stored key returns that entry first, then the following ones
+func (w *world) rangeFromEachStored() {
+	for i, e := range w.model {
+		it := w.sl.Iterator(w.key(e.k), nil)
+		n := 0
+		for done, _, _, rid := it.Next(); !done; done, _, _, rid = it.Next() {
+			if n < 2 && i+n < len(w.model) {
+				vf.Assert(samehada_util.PackRIDtoUint64(rid) == w.model[i+n].v, "a range scan starting at a stored key returns that entry first and its successor next")
+			}
+			n++
+		}
+		vf.Assert(n == len(w.model)-i, "a range scan starting at a stored key returns it and every larger entry")
+	}
+	vf.Cover("c17.range-from-stored")
+}
+
 func (w *world) rangeAudit() {
 	lo, hi := w.newKey(), w.newKey()
 	it := w.sl.Iterator(w.key(lo), w.key(hi))
@@ -204,6 +220,7 @@ func historyPrefilled(pre, k int, levels int) {
 		w.step(i)
 		w.audit("after operation", false) // full scan + lookup of every stored key (no extra symbolic probe)
 	}
+	w.rangeFromEachStored()
 }
 
 func history(k int, long bool, levels int) {
